@@ -44,6 +44,14 @@
 #include "threadpool/threadpool.h"
 #include "threadpool/threadpool_msg_sys.h"
 
+/* Verification scheduling points (no-ops unless built with -DLIBLCB_VERIF). */
+#ifdef LIBLCB_VERIF
+void	lcb_verif_point(int id, const void *obj);
+#define LCB_VP(__id, __obj)	lcb_verif_point((__id), (__obj))
+#else
+#define LCB_VP(__id, __obj)
+#endif
+
 
 
 typedef struct thread_pool_thread_msg_queue_s { /* thread pool thread info */
@@ -112,6 +120,7 @@ tpt_msg_recv_and_process(tp_event_p ev, tp_udata_p tp_udata) {
 	debugd_break_if((uintptr_t)((tpt_msg_queue_p)tp_udata)->fd[0] != tp_udata->ident);
 
 	for (;;) {
+		LCB_VP(2, tp_udata);
 		rd = read((int)tp_udata->ident, &msg, sizeof(msg));
 		if (((ssize_t)sizeof(tpt_msg_pkt_t)) > rd)
 			return; /* -1, 0, < sizeof(tpt_msg_pkt_t) */
@@ -144,6 +153,7 @@ tpt_msg_recv_and_process(tp_event_p ev, tp_udata_p tp_udata) {
 					break;
 				}
 			}
+			LCB_VP(3, tp_udata);
 			if (NULL == msg[i].msg_cb)
 				continue;
 			msg[i].msg_cb(tp_udata->tpt, msg[i].udata);
@@ -180,6 +190,7 @@ tpt_msg_active_thr_count_dec(tpt_msg_data_p msg_data, tpt_p src,
 	msg_data->active_thr_count -= dec;
 	tm = msg_data->active_thr_count;
 	MTX_UNLOCK(&msg_data->lock);
+	LCB_VP(4, msg_data);
 
 	if (0 != tm ||
 	    NULL == msg_data->done_cb)
@@ -213,6 +224,7 @@ tpt_msg_one_by_one_proxy_cb(tpt_p tpt, void *udata) {
 	msg_data = udata;
 	msg_data->msg_cb(tpt, msg_data->udata);
 	/* Send to next thread. */
+	LCB_VP(5, msg_data);
 	msg_data->cur_thr_idx ++;
 	if (0 == tpt_msg_one_by_one_send_next__int(tpt_get_tp(tpt), tpt, msg_data))
 		return;
@@ -300,6 +312,7 @@ tpt_msg_send(tpt_p dst, tpt_p src, uint32_t flags,
 		return (0);
 	}
 
+	LCB_VP(1, dst);
 	msg.magic = TPT_MSG_PKT_MAGIC;
 	msg.msg_cb = msg_cb;
 	msg.udata = udata;
@@ -422,6 +435,7 @@ tpt_msg_bsend_ex(tp_p tp, tpt_p src, uint32_t flags,
 		rqts.tv_nsec = 10000000; /* 1 sec = 1000000000 nanoseconds */
 		tm_cnt = tpt_msg_active_thr_count_dec(msg_data, src, tm_cnt);
 		while (0 != tm_cnt) {
+			LCB_VP(6, msg_data);
 			if (0 == (TP_BMSG_F_SYNC_USLEEP & flags)) {
 				sched_yield();
 			} else {
